@@ -55,6 +55,28 @@ fn op_es(s: &str) -> String {
         Ok(p) if p == format!("{{{}:null}}", main) => {}
         _ => out.push_str(" DIFF-key"),
     }
+    // a one-character string also as a `char` value and as a `char` map key (MapKeySerializer::serialize_char), text and to_value routes
+    let mut cs = s.chars();
+    if let (Some(c), None) = (cs.next(), cs.next()) {
+        match serde_json::to_string(&c) {
+            Ok(p) if p == main => {}
+            _ => out.push_str(" DIFF-char"),
+        }
+        let mut cm = std::collections::BTreeMap::new();
+        cm.insert(c, ());
+        match serde_json::to_string(&cm) {
+            Ok(p) if p == format!("{{{}:null}}", main) => {}
+            _ => out.push_str(" DIFF-char-key"),
+        }
+        match serde_json::to_string_pretty(&cm) {
+            Ok(p) if p == format!("{{\n  {}: null\n}}", main) => {}
+            _ => out.push_str(" DIFF-char-key-pretty"),
+        }
+        match serde_json::to_value(&cm) {
+            Ok(serde_json::Value::Object(o)) if o.len() == 1 && o.keys().next().map(|k| k.as_str()) == Some(s) => {}
+            _ => out.push_str(" DIFF-char-key-value"),
+        }
+    }
     out
 }
 
